@@ -504,12 +504,45 @@ func TestSwitchHammer(t *testing.T) {
 				f.Add(ipnet(prefix{uint32(12+w) << 24, 8}))
 			}(w)
 		}
+		// ... and one goroutine that switches 0.0.0.0/0 on and off in a tight loop across the crossing (match-all is kept
+		// apart from the list and the maps; whatever it shares with them is shared at this moment)
+		toggles := rapid.SampledFrom([]int{0, 0, 20, 200}).Draw(t, "matchAllTogglesAcrossTheSwitch")
+		if toggles > 0 {
+			wg.Add(1)
+			go func() {
+				defer wg.Done()
+				for !armed.Load() {
+				}
+				for i := 0; i < toggles; i++ {
+					f.Add(ipnet(prefix{0, 0}))
+					f.Remove(ipnet(prefix{0x7f000001, 0}))
+				}
+			}()
+		}
 		crossing := prefix{11 << 24, 8}
 		armed.Store(true)
 		if err := f.Add(ipnet(crossing)); err != nil { // the 257th valid Add: the switch
 			t.Fatalf("Add: %v", err)
 		}
 		wg.Wait()
+		if toggles > 0 {
+			// 0.0.0.0/0 is off again; an update after the switch finds everything that was added before it
+			if f.Contains(ip(99<<24|0x010203, false)) {
+				t.Fatalf("0.0.0.0/0 was switched on and off %d times while another goroutine's Add switched the filter from list to maps: afterwards an address no range covers is contained", toggles)
+			}
+			if !f.Contains(ip(crossing.net|5, false)) {
+				t.Fatalf("the range added by the crossing Add is not contained afterwards (0.0.0.0/0 was toggled %d times across the switch)", toggles)
+			}
+			if err := f.Add(ipnet(prefix{14 << 24, 8})); err != nil {
+				t.Fatalf("Add: %v", err)
+			}
+			for _, v := range []uint32{crossing.net | 5, 14<<24 | 1, stable[0].net | 3, stable[len(stable)-1].net | 3} {
+				if !f.Contains(ip(v, false)) {
+					t.Fatalf("after 0.0.0.0/0 was toggled %d times across the switch and one more range was added, Contains(%v) = false although a range covering it was added and never removed", toggles, ip(v, false))
+				}
+			}
+			ev.Label("switch_hammer_with_match_all_toggled_across_the_switch")
+		}
 		for w := range victims {
 			for _, v := range victims[w] {
 				if f.Contains(ip(v.net|7, false)) {
